@@ -1,13 +1,16 @@
 // argvchild: the child program of the C16 checks (no dependencies).
 // Appends one JSON line {"argv": os.Args} to the file named by VERIF_ARGV_OUT (one O_APPEND write),
 // then, if VERIF_ARGV_GATE names a file, waits until that file exists (at most 60 s),
-// then, if VERIF_ARGV_PRINT=1, prints its arguments joined by one space and a newline.
+// then, if VERIF_ARGV_PRINT=1, prints its arguments joined by one space and a newline (nothing if one
+// of the arguments is --quiet), and exits with status N if its last argument of the form --exit=N says so
+// (scripted failing calls: the script is part of the argv, so it is a function of the argv).
 package main
 
 import (
 	"encoding/json"
 	"fmt"
 	"os"
+	"strconv"
 	"strings"
 	"time"
 )
@@ -17,16 +20,16 @@ func main() {
 		b, err := json.Marshal(map[string][]string{"argv": os.Args})
 		if err != nil {
 			fmt.Fprintln(os.Stderr, "argvchild:", err)
-			os.Exit(3)
+			os.Exit(99)
 		}
 		f, err := os.OpenFile(p, os.O_WRONLY|os.O_APPEND|os.O_CREATE, 0644)
 		if err != nil {
 			fmt.Fprintln(os.Stderr, "argvchild:", err)
-			os.Exit(3)
+			os.Exit(99)
 		}
 		if _, err := f.Write(append(b, '\n')); err != nil {
 			fmt.Fprintln(os.Stderr, "argvchild:", err)
-			os.Exit(3)
+			os.Exit(99)
 		}
 		f.Close()
 	}
@@ -39,7 +42,19 @@ func main() {
 			time.Sleep(300 * time.Microsecond)
 		}
 	}
-	if os.Getenv("VERIF_ARGV_PRINT") == "1" {
+	quiet, code := false, 0
+	for _, a := range os.Args[1:] {
+		if a == "--quiet" {
+			quiet = true
+		}
+		if strings.HasPrefix(a, "--exit=") {
+			if n, err := strconv.Atoi(a[len("--exit="):]); err == nil && n >= 0 && n <= 255 {
+				code = n
+			}
+		}
+	}
+	if os.Getenv("VERIF_ARGV_PRINT") == "1" && !quiet {
 		fmt.Println(strings.Join(os.Args[1:], " "))
 	}
+	os.Exit(code)
 }
